@@ -215,53 +215,7 @@ func runC24(c *Ctx) {
 	c.Floor(r3, 7)
 
 	// 4. lock-order
-	const r4 = "lock-order"
-	for _, fi := range p.FuncsIn(sfShort) {
-		if fi.Decl.Body == nil || p.isTestFile(fi.Decl.Pos()) {
-			continue
-		}
-		var fl *FuncLocks
-		walkCalls(fi.Decl.Body, true, func(call *ast.CallExpr) {
-			fn := Callee(info, call)
-			if fn == nil || fn.Pkg() == nil || shortPkg(fn.Pkg().Path()) != "x/fdpool" {
-				return
-			}
-			if tn := recvTypeName(fn); tn == nil || tn.Name() != "Pool" {
-				return
-			}
-			if fl == nil {
-				fl = p.FuncLocks(fi, nil)
-			}
-			held := fl.HeldAt(call.Pos())
-			bad := ""
-			for l := range held {
-				bad = l
-			}
-			c.Analysed(fi)
-			c.Check(bad == "", r4, fi.Name()+"->Pool."+fn.Name(), call.Pos(), orStr(ifStr(bad != "", "pool called while holding "+bad+" (the pool calls back Pinned/ReleaseNow, which take it)"), "pool called with no SharedFile lock held"))
-		})
-	}
-	for _, fi := range p.FuncsIn("x/fdpool") {
-		if fi.Decl.Body == nil || p.isTestFile(fi.Decl.Pos()) {
-			continue
-		}
-		finfo := fi.Pkg.TypesInfo
-		var fl *FuncLocks
-		walkCalls(fi.Decl.Body, true, func(call *ast.CallExpr) {
-			fn := Callee(finfo, call)
-			if fn == nil || fn.Name() != "ReleaseNow" {
-				return
-			}
-			if fl == nil {
-				fl = p.FuncLocks(fi, nil)
-			}
-			held := fl.HeldAt(call.Pos())
-			_, bad := held["p.mu"]
-			c.Analysed(fi)
-			c.Check(!bad, r4, fi.Name()+"->Member.ReleaseNow", call.Pos(), orStr(ifStr(bad, "member released while holding the pool lock"), "member released with the pool lock dropped"))
-		})
-	}
-	c.Floor(r4, 3)
+	checkPoolLockOrder(c, "lock-order")
 
 	// 5. acquire-release at external sites
 	const r5 = "acquire-release"
